@@ -5,7 +5,7 @@ import os
 import subprocess
 import time
 
-from common import (HarnessError, Report, cargo_build, ddmin, pmap, run, scratch, seed, NCPU, WORK)
+from common import (run_dir, HarnessError, Report, cargo_build, ddmin, pmap, run, scratch, seed, NCPU, WORK)
 
 H_FIELDS = ("idx", "nops", "nsearch", "nentries", "shape", "log", "map", "cls")
 
@@ -52,7 +52,7 @@ def sim_gen(binary, sd, index):
 
 def sim_exec(binary, replay_obj, mode, tag, verbose=False):
     """Execute explicit histories in a fresh process -> (H dict, V list, log lines)"""
-    d = os.path.join(WORK, "run", "exec")
+    d = os.path.join(run_dir(), "exec")
     os.makedirs(d, exist_ok=True)
     path = os.path.join(d, "cand_%s_%d.json" % (tag, os.getpid()))
     with open(path, "w") as f:
